@@ -43,7 +43,8 @@ def names_for(row: dict[str, Any]) -> dict[str, str]:
     case = exp.lower() if exp.lower() != exp else exp.upper()
     return {"equal": exp, "other": "kitchen", "case": case, "prefix": exp[:-1], "unicode": exp.casefold() + "-ü", "empty": ""}
 PSK = bytes(range(1, 33))
-PACKAGINGS = ("separate", "one-chunk", "split-mid-frame", "connect-before-hello", "hello-twice", "one-chunk+peer-disconnect", "one-chunk+garbage")
+PACKAGINGS = ("separate", "one-chunk", "split-mid-frame", "connect-before-hello", "hello-twice", "one-chunk+peer-disconnect", "one-chunk+garbage",
+              "one-chunk+rst")    # the device aborts the connection (RST) right behind its last answer: the answer is still read, the socket is already dead
 MAJORS = (0, 1, 2, 3, 4, 2**32 - 1)
 MINORS = (0, 9, 10, 2**32 - 1)
 
@@ -68,7 +69,7 @@ def run_case(row: dict[str, Any]) -> dict[str, Any]:
             cfg.coalesce_replies = True
             if pk == "split-mid-frame":
                 cfg.coalesce_cuts = [5]
-        elif pk in ("one-chunk+peer-disconnect", "one-chunk+garbage"):
+        elif pk in ("one-chunk+peer-disconnect", "one-chunk+garbage", "one-chunk+rst"):
             # the device hangs up right behind its last answer of the connect phase, in the same chunk: the close takes effect
             # before the connecting task has looked at the answers
             cfg.coalesce_replies = True
@@ -76,6 +77,8 @@ def run_case(row: dict[str, Any]) -> dict[str, Any]:
             def hangup(c: DeviceConn) -> None:
                 if pk.endswith("peer-disconnect"):
                     c.send("DisconnectRequest")
+                elif pk.endswith("rst"):
+                    c.rst(None)
                 else:
                     from vf import refcodec as _rc  # noqa: PLC0415
 
